@@ -234,14 +234,23 @@ def history_part(ctx):
                 r['l'].append('+')
                 yield r
 
+        # 1-3 resources; some of them empty (first, middle or last) when they reach the checkpoint
+        nres = rng.choice([1, 1, 2, 3, 3])
+        empties = [rng.random() < 0.4 for _ in range(nres)]
+
         def make_flow():
-            links = [copy.deepcopy(data), DF.set_type('n', type='number'), step(0)]
+            links = [copy.deepcopy(data) for _ in range(nres)]
+            for ri, emp in enumerate(empties):
+                if emp:
+                    links.append(DF.filter_rows(equals=[{'i': -999}], resources='res_%d' % (ri + 1)))
+            links += [DF.set_type('n', type='number'), step(0)]
             for c in range(n_cp):
                 links.append(DF.checkpoint('cp%d' % c, checkpoint_path=base))
                 links.append(step(c + 1))
             return Flow(*links)
         first = None
-        hist_case = {'checkpoints': n_cp, 'rows': len(data), 'ops': ops, 'in_place_steps': in_place}
+        hist_case = {'checkpoints': n_cp, 'rows': len(data), 'ops': ops, 'in_place_steps': in_place,
+                     'resources_empty': empties}
         for j, op in enumerate(ops):
             if op == 'delete':
                 shutil.rmtree(base, ignore_errors=True)
